@@ -180,7 +180,14 @@ func runCase(sp *Spec, wd time.Duration) *result {
 			}
 		}()
 		if sp.isStream() {
-			synctest.Run(func() { drive(sp, res) })
+			// explicit hand-over of res (synctest.Run does join the bubble's goroutines, but the join is not
+			// a synchronisation the race detector knows about)
+			handOver := make(chan struct{}, 1)
+			synctest.Run(func() {
+				defer func() { handOver <- struct{}{} }()
+				drive(sp, res)
+			})
+			<-handOver
 		} else {
 			drive(sp, res)
 		}
